@@ -28,5 +28,8 @@ pub fn run(cx: &mut Cx) {
     cx.pin("rules_idiom.rs", "idiom_drain_to", "requires n <= old(self).idiom_seq().len()");
     cx.pin("hosttcp_indexmap.rs", "<IndexMap as Index<&K>>::index_req", "open spec fn index_req(&self, index: &&K) -> bool { im_has(self@, **index) }");
     cx.pin("uring_std.rs", "VecDeque::drain", "requires is_full_range(range)");
+    cx.pin("uring_ext.rs", "Vec::drain", "requires 0 <= range_lo(range) <= range_hi(range, old(v)@.len() as int) <= old(v)@.len()");
+    cx.pin("ports_dns.rs", "idiom_panic_unless", "pub fn idiom_panic_unless(c: bool) ensures c");
+    cx.pin("fs_vec.rs", "<[T]>::fill [corrected]", "vstd::pervasive::cloned::<T>(v, #[trigger] final(s)@[i])");
     cx.pin("fs_vec.rs", "axiom_vec_imut_range", "requires r.start <= r.end <= pre.len()");
 }
